@@ -79,7 +79,16 @@ fn read_all<I: BinaryInput>(mut i: I, ops: &[Value]) -> (Vec<Option<Value>>, usi
     (got, left)
 }
 
-pub const OUT_SINKS: [&str; 8] = ["Vec<u8>", "BytesMut", "RecordingOutput", "SizeCalculator", "ctx(Vec<u8>)", "ctx(BytesMut)", "ctx(RecordingOutput)", "ctx(SizeCalculator)"];
+pub const OUT_SINKS: [&str; 14] = ["Vec<u8>", "BytesMut", "RecordingOutput", "SizeCalculator", "ctx(Vec<u8>)", "ctx(BytesMut)", "ctx(RecordingOutput)", "ctx(SizeCalculator)",
+    "BytesMut(spare 1)", "BytesMut(spare 2)", "BytesMut(spare 3)", "BytesMut(spare 4)", "ctx(BytesMut(spare 2))", "Vec<u8>(spare 1)"];
+
+/// a BytesMut that holds 64 - spare bytes already and has exactly `spare` bytes of capacity left: the allocation
+/// state of the sink must not matter
+fn nearly_full(spare: usize) -> BytesMut {
+    let mut b = BytesMut::with_capacity(64);
+    b.extend_from_slice(&vec![0xEE; b.capacity() - spare]);
+    b
+}
 
 /// bytes held by each sink after the script (SizeCalculator: that many zero bytes)
 fn write_all(ops: &[Value]) -> Vec<Vec<u8>> {
@@ -91,7 +100,18 @@ fn write_all(ops: &[Value]) -> Vec<Vec<u8>> {
     let mut f = SerializationContext::new(BytesMut::new());
     let mut g = SerializationContext::new(RecordingOutput::default());
     let mut h = SerializationContext::new(SizeCalculator::new());
+    let mut spare: Vec<BytesMut> = (1..=4).map(nearly_full).collect();
+    let pre: Vec<usize> = spare.iter().map(|b| b.len()).collect();
+    let mut cs = SerializationContext::new(nearly_full(2));
+    let mut vs: Vec<u8> = Vec::with_capacity(16);
+    vs.extend_from_slice(&vec![0xEE; vs.capacity() - 1]);
+    let vpre = vs.len();
     for op in ops {
+        for b in spare.iter_mut() {
+            write_op(b, op);
+        }
+        write_op(&mut cs, op);
+        write_op(&mut vs, op);
         write_op(&mut a, op);
         write_op(&mut b, op);
         write_op(&mut c, op);
@@ -101,7 +121,13 @@ fn write_all(ops: &[Value]) -> Vec<Vec<u8>> {
         write_op(&mut g, op);
         write_op(&mut h, op);
     }
-    vec![a, b.to_vec(), c.data, vec![0; d.size()], e.into_output(), f.into_output().to_vec(), g.into_output().data, vec![0; h.into_output().size()]]
+    let mut out = vec![a, b.to_vec(), c.data, vec![0; d.size()], e.into_output(), f.into_output().to_vec(), g.into_output().data, vec![0; h.into_output().size()]];
+    for (b, p) in spare.iter().zip(pre.iter()) {
+        out.push(b[*p..].to_vec());
+    }
+    out.push(cs.into_output()[62..].to_vec());
+    out.push(vs[vpre..].to_vec());
+    out
 }
 
 pub fn prim_out_case(case: &Value, _dispatch: Dispatch, r: &mut Report) {
